@@ -12,6 +12,7 @@ import DvcData.Model.IndexCheckout
 import DvcData.Model.IndexSave
 import DvcData.Model.Staging
 import DvcData.Model.Fetch
+import DvcData.Model.StoreAdd
 import DvcData.Model.State
 import DvcData.Model.Store
 import DvcData.Model.Checkout
@@ -526,6 +527,17 @@ def opStateHistory (j : Lean.Json) : Except String Lean.Json := do
 
 def md5H : State.Algo → State.Bytes → State.Digest := fun _ b => Md5.hex (ByteArray.mk b.toArray)
 
+/-- one `add(path, fs, oid, verify=...)` into an empty store (no hash-state rows): the verdict and what sits under the name -/
+def opStoreAdd (j : Lean.Json) : Except String Lean.Json := do
+  let arg : Option Bool := match j.getObjVal? "verify_arg" with | .ok (.bool b) => some b | _ => none
+  let data ← unhex (← str j "data")
+  let r := Store.add md5H (boolOf j "local") "md5" (boolOf j "store_verify") arg [] [] (← str j "oid") data
+    { ino := 1, mtime := 1, size := data.length }
+  let verdict := match r.1 with | .ok => "ok" | .notFound => "notFound" | .corrupt => "corrupt"
+  pure (Lean.Json.mkObj [("verdict", verdict),
+    ("store", Lean.Json.arr (r.2.1.map fun e => Lean.Json.arr #[.str e.1, .str (md5H "md5" e.2.data), .bool e.2.prot]).toArray)])
+
+
 def storeTo (st : Store.Store) : Lean.Json :=
   Lean.Json.arr (st.map fun e => Lean.Json.arr #[.str e.1, .str (md5Of e.2.data), .bool e.2.prot]).toArray
 
@@ -806,6 +818,7 @@ def dispatch (j : Json) : Except String Json := do
   | "index_save" => opIndexSave j
   | "staging" => opStaging j
   | "fetch_counts" => opFetchCounts j
+  | "store_add" => opStoreAdd j
   | "idx_checkout" => opIdxCheckout j
   | "state_history" => opStateHistory j
   | "store_history" => opStoreHistory j
